@@ -65,7 +65,7 @@ def registerListen (localPeer : Nat) (listen : List Multiaddr) (a : Multiaddr) :
 
 /-- Body of the loop of `add_known_address` for one offered address: `some a'` is the address put
 into `peer_addresses`, `none` means skipped. -/
-def admit (tcp : Bool) (listen : List Multiaddr) (peer : Nat) (a : Multiaddr) : Option Multiaddr :=
+def admitOne (tcp : Bool) (listen : List Multiaddr) (peer : Nat) (a : Multiaddr) : Option Multiaddr :=
   if !supportedTransport tcp a then none
   else if isLocalAddress listen a then none
   else match a.getLast? with
@@ -79,7 +79,7 @@ def dedup : List Multiaddr → List Multiaddr
   | a :: as => a :: (dedup as).filter (fun b => b != a)
 
 def admitted (tcp : Bool) (listen : List Multiaddr) (peer : Nat) (as : List Multiaddr) : List Multiaddr :=
-  dedup (as.filterMap (admit tcp listen peer))
+  dedup (as.filterMap (admitOne tcp listen peer))
 
 /-! ## TCP address parser -/
 
@@ -108,6 +108,13 @@ structure Parsed where
   port : Nat
   peer : Option Nat
   deriving DecidableEq, Repr
+
+instance : DecidableEq (Except AddrErr Parsed) := fun a b =>
+  match a, b with
+  | .ok x, .ok y => if h : x = y then isTrue (by rw [h]) else isFalse (by intro h'; cases h'; exact h rfl)
+  | .error x, .error y => if h : x = y then isTrue (by rw [h]) else isFalse (by intro h'; cases h'; exact h rfl)
+  | .ok _, .error _ => isFalse (by intro h; cases h)
+  | .error _, .ok _ => isFalse (by intro h; cases h)
 
 /-- The tail of `multiaddr_to_socket_address` after the socket address (TCP listener type):
 `None => None`, `Some(P2p(p)) => Some(p)` — whatever follows the first `/p2p` is not looked at —,
